@@ -621,7 +621,15 @@ class SpecArray(object):
         fp = self.fp(smooth=smooth)
         alpha_pm = 0.3125 * self.hs() ** 2 * fp**4
         epm_fp = alpha_pm * fp**-5 * 0.2865048
-        gamma = self.oned().max(dim=attrs.FREQNAME) / epm_fp
+        # Energy density at the spectral peak defining fp, not the global maximum which
+        # could sit at the boundary of the frequency range where no peak is defined
+        Sf = self.oned()
+        ifreq = xr.DataArray(
+            np.arange(Sf[attrs.FREQNAME].size),
+            coords={attrs.FREQNAME: Sf[attrs.FREQNAME]},
+            dims=(attrs.FREQNAME,),
+        )
+        gamma = Sf.where(ifreq == self._peak(Sf)).max(dim=attrs.FREQNAME) / epm_fp
         if scaled:
             # polynomial approximation for gamma
             p = [0.0378375, -0.13543292, 0.64087366, 0.32524949, 0.12974958]
